@@ -60,13 +60,17 @@ def minor_snap(s):
 class Recorder:
     """with Recorder() as rec: ... ; rec.events is the list of stage events of everything run inside."""
 
-    def __init__(self):
+    def __init__(self, stubs=None):
+        """stubs: {function name: replacement}: the stage ORACLE is replaced (scripted stage results for the real
+        genotype() orchestration, see spec/gen/PipelineGen.tla); everything around it stays the real code."""
         self.events = []
         self._saved = []
         self._depth = 0
+        self._stubs = stubs or {}
 
     def _wrap(self, module, name, before, after):
-        orig = getattr(module, name)
+        real = getattr(module, name)
+        orig = self._stubs.get(name, real)
         rec = self
 
         def wrapper(*a, **kw):
@@ -87,7 +91,7 @@ class Recorder:
                 rec.events.append(ev)
 
         wrapper.__wrapped__ = orig
-        self._saved.append((module, name, orig))
+        self._saved.append((module, name, real))
         setattr(module, name, wrapper)
 
     def __enter__(self):
@@ -137,7 +141,7 @@ class Recorder:
         return False
 
 
-def run_genotype(gene_db, sam_path, profile_name, out_name="out.aldy", capture_sample=False, **kw):
+def run_genotype(gene_db, sam_path, profile_name, out_name="out.aldy", capture_sample=False, stubs=None, **kw):
     """Run the real aldy.genotype.genotype() with recorders on.
 
     Returns {"events", "result" (list of minor snapshots or None), "result_objs", "error", "error_type",
@@ -159,7 +163,7 @@ def run_genotype(gene_db, sam_path, profile_name, out_name="out.aldy", capture_s
         aldy.sam.Sample = CapturingSample
     res, err, etype = None, "", ""
     try:
-        with Recorder() as rec:
+        with Recorder(stubs=stubs) as rec:
             try:
                 res = aldy.genotype.genotype(gene_db, sam_path, profile_name, output_file=out, **kw)
             except AldyException as ex:
